@@ -21,6 +21,8 @@ EXTENDS X691Prim
 
 NoCon == [c |-> "none", lb |-> 0, ub |-> 0, ext |-> FALSE]
 Rng(lb, ub, ext) == [c |-> "rng", lb |-> lb, ub |-> ub, ext |-> ext]
+\* (lb..MAX): no upper bound - a semi-constrained whole number (13.2.3 -> 11.7), whatever lb is (also 0)
+Semi(lb) == [c |-> "semi", lb |-> lb, ub |-> 0, ext |-> FALSE]
 NoSz == [c |-> "none", lb |-> 0, ub |-> 0, ext |-> FALSE]
 Sz(lb, ub, ext) == [c |-> "sz", lb |-> lb, ub |-> ub, ext |-> ext]
 \* SIZE(lb..MAX): an upper bound beyond every length that is explored; any ub >= 64K selects the same
@@ -31,6 +33,25 @@ TBool == [k |-> "bool"]
 TNull == [k |-> "null"]
 TInt(con) == [k |-> "int", con |-> con]
 TEnum(nroot, nadd, ext) == [k |-> "enum", nroot |-> nroot, nadd |-> nadd, ext |-> ext]
+\* a CHOICE whose alternatives carry explicit tags atags[i] = <<class, number>> (class 0 UNIVERSAL < 1 APPLICATION < 2 context < 3 PRIVATE)
+TChoiceT(alts, atags, nroot, ext) == [k |-> "choice", alts |-> alts, nroot |-> nroot, ext |-> ext, atags |-> atags]
+\* X.680 8.6, the canonical order of tags
+TagLess(a, b) == a[1] < b[1] \/ (a[1] = b[1] /\ a[2] < b[2])
+\* 23.2: the index of a root alternative counts the root alternatives "in the canonical order specified in X.680 8.6"; a value
+\* names the alternative by its position in the declaration (as the generated Rust enum does); additions keep their order
+ChoiceIndex(t, i) ==
+  IF "atags" \in DOMAIN t /\ i < t.nroot /\ (\A j \in 1..t.nroot : t.atags[j] # <<>>)
+  THEN Cardinality({j \in 1..t.nroot : TagLess(t.atags[j], t.atags[i + 1])})
+  ELSE i
+\* ... with explicit enumeration values nums (one per item in the order of declaration; X.680 19: distinct, the additions ascending)
+TEnumN(nums, nroot, ext) == [k |-> "enum", nroot |-> nroot, nadd |-> Len(nums) - nroot, ext |-> ext, nums |-> nums]
+\* 14.1: "the enumerations in the enumeration root shall be sorted into ascending order by their enumeration value, and shall then
+\* be assigned an enumeration index starting with zero"; a value is the item's position in the declaration (0-based), as in the
+\* generated Rust enum.  Additions keep their order (they are declared ascending).
+EnumIndex(t, v) ==
+  IF "nums" \in DOMAIN t /\ v < t.nroot
+  THEN LET smaller == {j \in 1..t.nroot : t.nums[j] < t.nums[v + 1]} IN Cardinality(smaller)
+  ELSE v
 TStr(cs, sz) == [k |-> "str", cs |-> cs, sz |-> sz]
 TOct(sz) == [k |-> "oct", sz |-> sz]
 TBits(sz) == [k |-> "bits", sz |-> sz]
@@ -81,6 +102,7 @@ EncSized(sz, items) ==
 (* 13: integer *)
 EncInt(con, x) ==
   IF con.c = "none" THEN UnconstrainedB(BOfInt(x))
+  ELSE IF con.c = "semi" THEN SemiConstrainedB(BOfInt(con.lb), BOfInt(x))
   ELSE IF ~con.ext THEN Constrained(con.lb, con.ub, x)
   ELSE IF InCon(con, x) THEN Cat(Ok(<<0>>), Constrained(con.lb, con.ub, x))
   ELSE Cat(Ok(<<1>>), UnconstrainedB(BOfInt(x)))
@@ -119,7 +141,7 @@ EncSeq(t, v) ==
 (* 23: choice *)
 EncChoice(t, v) ==
   IF v.i < 0 \/ v.i >= Len(t.alts) THEN Err
-  ELSE LET idx == Index(t.nroot, t.ext, v.i)
+  ELSE LET idx == Index(t.nroot, t.ext, ChoiceIndex(t, v.i))
            body == Enc(t.alts[v.i + 1], v.v)
        IN IF ~idx.ok \/ ~body.ok THEN Err
           ELSE IF v.i < t.nroot THEN Ok(idx.bits \o body.bits) ELSE Ok(idx.bits \o OpenType(body.bits))
@@ -141,7 +163,7 @@ Enc(t, v) ==
   CASE t.k = "bool"   -> Ok(<<BoolBit(v)>>)                                       \* 12
     [] t.k = "null"   -> Ok(<<>>)                                                  \* 24
     [] t.k = "int"    -> EncInt(t.con, v)                                          \* 13
-    [] t.k = "enum"   -> IF v >= 0 /\ v < t.nroot + t.nadd THEN Index(t.nroot, t.ext, v) ELSE Err   \* 14
+    [] t.k = "enum"   -> IF v >= 0 /\ v < t.nroot + t.nadd THEN Index(t.nroot, t.ext, EnumIndex(t, v)) ELSE Err   \* 14
     [] t.k = "oct"    -> EncSized(t.sz, [j \in 1..Len(v) |-> NatBits(v[j], 8)])   \* 17
     [] t.k = "bits"   -> EncSized(t.sz, [j \in 1..Len(v) |-> <<v[j]>>])           \* 16
     [] t.k = "str"    -> EncStr(t, v)                                              \* 30
